@@ -12,6 +12,7 @@ import (
 	"fmt"
 	"io"
 	"net"
+	"sync/atomic"
 	"time"
 
 	"compress/flate"
@@ -122,6 +123,10 @@ func (c *Conn) write(ctx context.Context, typ MessageType, p []byte) (int, error
 }
 
 func (mw *msgWriter) reset(ctx context.Context, typ MessageType) error {
+	if atomic.LoadInt32(&mw.c.closeFrameSent) == 1 {
+		return net.ErrClosed
+	}
+
 	err := mw.mu.lock(ctx)
 	if err != nil {
 		return err
@@ -248,6 +253,15 @@ func (c *Conn) writeFrame(ctx context.Context, fin bool, flate bool, opcode opco
 		return 0, err
 	}
 	defer c.writeFrameMu.unlock()
+
+	// No data frames and no second close frame may be sent
+	// after a close frame. See RFC 6455 section 5.5.1.
+	if atomic.LoadInt32(&c.closeFrameSent) == 1 && opcode != opPing && opcode != opPong {
+		return 0, net.ErrClosed
+	}
+	if opcode == opClose {
+		atomic.StoreInt32(&c.closeFrameSent, 1)
+	}
 
 	select {
 	case <-c.closed:
